@@ -78,17 +78,28 @@ def impl(case):
     from eliot import MemoryLogger
     from eliot.testing import swap_logger, LoggedAction, LoggedMessage, assertHasAction, assertHasMessage
     from eliot.parse import Parser, WrittenAction
-    logger = MemoryLogger()
-    prev = swap_logger(logger)
-    try:
-        it = progs.Interp(case)
+    if "synthetic" in case:
+        # a log as several threads/processes sharing one MemoryLogger produce it: sub-tasks handed off
+        # elsewhere may log after the action that handed them off has ended
+        full = [forests.to_dict(m) for m in case["synthetic"]]
+        for d in full:
+            d.pop("id", None)
+
+        class _It(object):
+            notes = []
+        it = _It()
+    else:
+        logger = MemoryLogger()
+        prev = swap_logger(logger)
         try:
-            it.block(case["prog"], 0)
-        except BaseException:
-            pass
-    finally:
-        swap_logger(prev)
-    full = list(logger.messages)
+            it = progs.Interp(case)
+            try:
+                it.block(case["prog"], 0)
+            except BaseException:
+                pass
+        finally:
+            swap_logger(prev)
+        full = list(logger.messages)
     cut = int(len(full) * case["cut"])
     uu = {}
     for m in full:
@@ -275,8 +286,16 @@ def oracle(case, obs):
                 continue
             if unfinished:
                 return "of_type(type%s) returned although an action of that type or a descendant is unfinished" % t
-            if r["trees"] != ptrees:
+            # same tree as the parser's: same nodes with the same children; the helpers list children in
+            # emission (log) order, the parser by position - these differ only when a handed-off sub-task
+            # logged after later siblings, so the comparison is up to child order, and emission order is
+            # checked separately
+            if [_norm(x) for x in r["trees"]] != [_norm(x) for x in ptrees]:
                 return "of_type(type%s) trees differ from the parser's trees for the same messages" % t
+            for tree in r["trees"]:
+                bad = _emission_order(tree)
+                if bad:
+                    return "of_type(type%s): %s" % (t, bad)
             for tree, succ, desc in zip(r["trees"], r["succeeded"], r["desc"]):
                 if succ != (msgs[tree[2]]["s"] == "succeeded"):
                     return "succeeded flag wrong for action starting at message %d" % tree[1]
@@ -293,6 +312,25 @@ def oracle(case, obs):
             if ok != expect:
                 return "assertHas%s(type%s, succeeded=%s, fields=%s) %s but the first entry %s" % (
                     kind.capitalize(), t, ws, mode, "passed" if ok else "failed", "matches" if expect else "does not match")
+    return None
+
+
+def _norm(tree):
+    if tree[0] == "M":
+        return tree
+    return ["A", tree[1], tree[2], sorted((_norm(c) for c in tree[3]), key=lambda c: c[1] if c[1] is not None else -1)]
+
+
+def _emission_order(tree):
+    if tree[0] == "M":
+        return None
+    heads = [c[1] for c in tree[3]]
+    if heads != sorted(heads):
+        return "children are not in emission order: %r" % heads
+    for c in tree[3]:
+        bad = _emission_order(c)
+        if bad:
+            return bad
     return None
 
 
@@ -325,6 +363,37 @@ def nontrivial(case, obs):
     return json.dumps(case["prog"], sort_keys=True) if any(len(d) > 1 for d in depths.values()) else None
 
 
+def gen_synthetic(rng, tier):
+    n = 60 if tier == "quick" else 1200
+    out = []
+    for i in range(n):
+        forest = forests.gen_forest(rng, rng.randrange(1, 4), 4, 3)
+        msgs = forests.linearize(forest)
+        if len(msgs) > 80:
+            continue
+        for m in msgs:      # few distinct types, as in the program family
+            if m["s"] is not None and m["t"] not in (4,):
+                m["t"] = 10 + (m["t"] % 2)
+            elif m["s"] is None:
+                m["t"] = 12 + (m["t"] % 2)
+        # move the block of some remote sub-tasks (type 4) behind the end of the action that handed them off
+        order = list(range(len(msgs)))
+        for j, m in enumerate(msgs):
+            if m["t"] == 4 and m["s"] == "started" and rng.random() < 0.7:
+                prefix = m["l"][:-1]
+                block = [k for k in order if msgs[k]["u"] == m["u"] and msgs[k]["l"][:len(prefix)] == prefix]
+                parent = prefix[:-1]
+                ends = [k for k in order if msgs[k]["u"] == m["u"] and msgs[k]["l"][:-1] == parent
+                        and msgs[k]["s"] in ("succeeded", "failed")]
+                if not ends:
+                    continue
+                rest = [k for k in order if k not in block]
+                at = rest.index(ends[0]) + 1 + rng.randrange(0, 3)
+                order = rest[:at] + block + rest[at:]
+        out.append({"synthetic": [msgs[k] for k in order], "cut": rng.random(), "prog": []})
+    return out
+
+
 class TwoStageFamily(Family):
     """the model consumes what the implementation captured"""
     two_stage = True
@@ -337,3 +406,10 @@ FAMILIES = [
 ]
 FAMILIES[0].post_model = lambda cases, obs_list: [{"views": model_view(p)} for p in run_model_on(obs_list)]
 FAMILIES[0].project = lambda case, obs: {"views": [{"of_type": v["of_type"], "msg_of_type": v["msg_of_type"]} for v in obs["views"]]}
+
+FAMILIES.append(TwoStageFamily("synthetic", gen_synthetic, impl, model_expr, None, oracle,
+                               lambda case, obs: json.dumps(case["synthetic"]) if any(m["t"] == 4 for m in case["synthetic"]) else None,
+                               imports=["Base.Level", "Model.Parser", "Model.Testing"], shard=30, case_timeout=30,
+                               describe=lambda c: ["synthetic", "remote" if any(m["t"] == 4 for m in c["synthetic"]) else "no_remote"]))
+FAMILIES[1].post_model = FAMILIES[0].post_model
+FAMILIES[1].project = FAMILIES[0].project
